@@ -24,7 +24,8 @@ RULE = ("requests = (generated schema with all six kinds + wrappers + enum inter
         "object/list or >=1 field error; histories = random order of all requests of one Schema object + re-execution "
         "of an earlier request at the end")
 ASSUMPTIONS = [
-    "coerced argument values are opaque (computed by the real coerce_argument_values per field node and parent type; C07 owns coercion)",
+    "argument coercion: the Lean side coerces the argument NODES itself with C07's model (ExecArgs.lean, Coerce.lean) and renders the "
+    "kwargs canonically; the Python reference spec still reads the table computed by the real coerce_argument_values (C07 owns its correctness)",
     "resolvers are worlds: a fixed hash of (seed, parent type, field, response path, canonical arguments); no other resolver behaviour is quantified",
     "introspection meta fields other than __typename and subscriptions are outside the generator (C15 / C17)",
     "a document that makes validate_ast raise never reaches execution (none does on /repo HEAD after fixes V1/V2/V7; C05 reports such documents)",
